@@ -461,6 +461,11 @@ class Data:
         full_lat_seq = self._full_grid.grid()["lat"]
         full_lon_seq = self._full_grid.grid()["lon"]
 
+        # Window boundaries are compared at the precision of the stored
+        # coordinates, whatever numeric type they are given in
+        def bound(seq, key):
+            return seq.dtype.type(window[key])
+
         # Get time indices for temporal window boundaries
         if window["time_min"] == window["time_max"]:
             # If boundaries time are equal, use all available time points
@@ -468,8 +473,8 @@ class Data:
                                      self._full_grid.grid_size()["time"])
         else:
             # Get indices for chosen time boundaries
-            time_indices = (full_time >= window["time_min"]) & \
-                           (full_time <= window["time_max"])
+            time_indices = (full_time >= bound(full_time, "time_min")) & \
+                           (full_time <= bound(full_time, "time_max"))
 
         # Get indices of nodes lying within the prescribed spatial
         # window boundaries
@@ -484,10 +489,11 @@ class Data:
         else:
             # space_indices is an array of bool indicating whether a node
             # lies within the window or not.
-            space_indices = (full_lat_seq >= window["lat_min"]) & \
-                            (full_lat_seq <= window["lat_max"]) & \
-                            (full_lon_seq >= window["lon_min"]) & \
-                            (full_lon_seq <= window["lon_max"])
+            space_indices = \
+                (full_lat_seq >= bound(full_lat_seq, "lat_min")) & \
+                (full_lat_seq <= bound(full_lat_seq, "lat_max")) & \
+                (full_lon_seq >= bound(full_lon_seq, "lon_min")) & \
+                (full_lon_seq <= bound(full_lon_seq, "lon_max"))
 
         # Set windowed observable and grid object
         time = full_time[time_indices]
